@@ -544,22 +544,25 @@ def pollShutdown (c : Cfg) (i : In) (s : St) (o : List Out) : Res :=
       { s := { fl.1 with complete := true }, outs := o ++ fl.2.1 ++ [Out.shut true, Out.done .ok] }
     else { s := fl.1, outs := o ++ fl.2.1 ++ [Out.shut false] }
 
+/-- `poll_shutdown_timer`, then the mode selection of `poll` (l.1148, l.1304–1464) -/
+def pollModes (c : Cfg) (i : In) (s : St) (o : List Out) : Step :=
+  match pollSdTimer i s with
+  | .assertFailed => .ret { s := { s with complete := true }, outs := o ++ [Out.panic 2] }
+  | .timeout => .ret { s := { s with complete := true }, outs := o ++ [Out.done .disconnectTimeout] }
+  | .cont s =>
+    if s.linger then
+      let r := pollLinger c i s
+      .ret { s := r.1, outs := o ++ r.2.1, selfWake := r.2.2 }
+    else if s.shutdown then .ret (pollShutdown c i s o)
+    else pollNormal c i s o
+
 /-- one pass through `poll` (l.1301–1468) -/
 def pollOnce (c : Cfg) (i : In) (s : St) (o : List Out) : Step :=
   let s := pollGraceful i s
   let s := pollHeadTimer c i s
   match pollKaTimer c i s with
   | none => .ret { s := { s with complete := true }, outs := o ++ [Out.panic 1] }
-  | some s =>
-    match pollSdTimer i s with
-    | .assertFailed => .ret { s := { s with complete := true }, outs := o ++ [Out.panic 2] }
-    | .timeout => .ret { s := { s with complete := true }, outs := o ++ [Out.done .disconnectTimeout] }
-    | .cont s =>
-      if s.linger then
-        let r := pollLinger c i s
-        .ret { s := r.1, outs := o ++ r.2.1, selfWake := r.2.2 }
-      else if s.shutdown then .ret (pollShutdown c i s o)
-      else pollNormal c i s o
+  | some s => pollModes c i s o
 
 /-- the transport part of an event: what arrived since the last poll -/
 def deliver (i : In) (s : St) : St :=
